@@ -43,7 +43,7 @@ from enum import Enum
 import numpy as np
 
 from ._libtoasty import subsample, mid
-from .image import Image
+from .image import Image, get_format_vertical_parity_sign
 from .progress import progress_bar
 from .pyramid import Pos, tiles_at_depth
 
@@ -739,7 +739,14 @@ class ToastSampler(object):
         self._sampler = sampler
         self._clobber = clobber
         self._format = format
-        self._invert_into_tiles = pio.get_default_vertical_parity_sign() == 1
+
+        # The rows must be reversed according to the format that the tiles are
+        # actually written in: the override in clobber mode, otherwise (and
+        # always when updating existing tiles) the pyramid's default format.
+        if clobber and format is not None:
+            self._invert_into_tiles = get_format_vertical_parity_sign(format) == 1
+        else:
+            self._invert_into_tiles = pio.get_default_vertical_parity_sign() == 1
 
     def visit_callback(self, pos, tile):
         lon, lat = toast_tile_get_coords(tile)
